@@ -49,7 +49,15 @@ func main() {
 			seed, _ = strconv.Atoi(s)
 		}
 		opts := &eng.CheckOpts{Prop: prop, Tier: *tier, Seed: seed, Only: *only, KeepSMT: *keep, VerifDir: verifDir, RepoDir: repoDir, Verbose: *verbose, AllFuncs: *allf, NoEvidence: *noev || *only != "", OutDir: *outDir}
-		os.Exit(eng.RunCheck(opts))
+		code := eng.RunCheck(opts)
+		if code == 0 && *tier == "thorough" && *only == "" && *outDir == "" && !*noev && os.Getenv("VP_NO_MUTANTS") == "" {
+			// thorough: also run the property's must-fail corpus against this check; the
+			// outcome goes into the evidence file and never changes the exit status
+			exe, _ := os.Executable()
+			total, killed, surv := eng.RunSelftestEmbedded(verifDir, repoDir, prop, exe)
+			eng.PatchEvidenceMutants(verifDir, prop, total, killed, surv)
+		}
+		os.Exit(code)
 	case "selftest":
 		prop := ""
 		if len(os.Args) > 2 {
